@@ -690,11 +690,16 @@ func (c *Context) Cbrt(d, x *Decimal) (Condition, error) {
 	res, err := c.goError(res)
 	d.Negative = neg
 
-	// Set z = d^3 to check for exactness.
-	ed.Mul(&z, d, d)
-	ed.Mul(&z, &z, d)
+	// Set z = d^3 to check for exactness. The cube has up to three times the
+	// digits of d, so it is computed exactly rather than at the working
+	// precision.
+	exact := BaseContext.WithPrecision(0)
+	exact.Traps = 0
+	eed := MakeErrDecimal(exact)
+	eed.Mul(&z, d, d)
+	eed.Mul(&z, &z, d)
 
-	if err := ed.Err(); err != nil {
+	if err := eed.Err(); err != nil {
 		return 0, err
 	}
 
